@@ -137,6 +137,15 @@ def glob_ref(pattern, s):
     return re.fullmatch(rx, s.lower(), re.S) is not None
 
 
+def close_numbers(rng):
+    """large numbers that differ by a relative 1e-9 or less (ids, millisecond time stamps): distinct all the same"""
+    base = rng.choice([10 ** 9, 10 ** 12, 1700000000000, 2 ** 40, -10 ** 10, 43831 * 10 ** 6])
+    offs = rng.sample([0, 1, 2, 3, 5, 8, 0.5, 1.5, 40, 41], rng.randint(1, 6))
+    arr = [base + o for o in offs]
+    x = rng.choice(arr) if rng.random() < 0.5 else base + rng.choice([0, 1, 2, 4, 0.5, 2.5, 7, 39, -1, 100])
+    return arr, x
+
+
 def check_match(c):
     x, arr, ty, mode = c
     out = []
@@ -258,6 +267,15 @@ def explore(ctx):
             mt.append((ty, x, arr))
         if rng.random() < 0.05:
             mt.append((rng.choice([2, -2, 3, 17]), x, arr))
+    for _ in range(600 if big else 150):
+        arr, x = close_numbers(rng)
+        k = rng.random()
+        if k < 0.35:
+            arr.sort()
+        elif k < 0.7:
+            arr.sort(reverse=True)
+        for ty in (1, 0, -1):
+            mt.append((ty, x, arr))
     words = ['apple', 'Apple', 'pear', 'PEAR', 'ape', 'a', '', 'ab', 'banana', 'a*b', 'x?']
     pats = ['a*', 'A*', '*e', '?ear', 'p??r', '*', 'ap?le', 'APPLE', 'pear', 'zzz', '', 'a', '*an*', '??', 'a?*']
     for _ in range(2000 if big else 500):
@@ -306,6 +324,13 @@ def explore(ctx):
     for _ in range(1500 if big else 400):
         arr = [rng.choice(words[:9]) or 'q' for _ in range(rng.randint(1, 5))]
         work.append(('match', (rng.choice([p for p in pats if p] + words[:6]), arr, 0, rng.choice(modes[:2]))))
+    for _ in range(1500 if big else 300):
+        arr, x = close_numbers(rng)
+        ty = rng.choice([1, -1, 0])
+        arr = sorted(arr, reverse=(ty == -1))
+        if ty == 0:
+            rng.shuffle(arr)
+        work.append(('match', (x, arr, ty, rng.choice(modes[:2]))))
     for n in range(1, 6):
         vals = [rng.choice([1, 'x', True, 2.5, 7]) for _ in range(n)]
         for i in range(-3, n + 4):
